@@ -281,6 +281,9 @@ impl Client {
 pub mod verif_hooks {
     use super::*;
 
+    /// Nameable alias of the crate-private connect response type.
+    pub type VConnectResponse = ConnectResponse;
+
     pub enum ConnectResponseView {
         Accepted(Sender, Receiver),
         Rejected { no_ports: bool },
